@@ -655,6 +655,19 @@ def check_stages(ctx, c):
     if m["stages"] != stages or not m["all_trained"]:
         ctx.violation("the stages of get_offline_subgraphs differ from the staging model", c, expected=m["stages"],
                       observed=stages, found_input=False, obligation=ob)
+        return
+    # the relations between the stages (who hands its states to whom): the input of the routing model
+    by_name = {nd.name: i for nd, i in ids.items()}
+    rel_impl = [sorted([by_name[s_], sorted(by_name[x] for x in cs)] for s_, cs in sub[1].items()) for sub in res]
+    rel_model = [sorted([n_, sorted(cs)] for n_, cs in rel) for rel in m["required"]]
+    if rel_impl != rel_model:
+        ctx.violation("the relations between the stages (_get_required_nodes) differ from the model's `required`", c,
+                      expected=rel_model, observed=rel_impl, found_input=False, obligation=ob)
+        return
+    if m["route_faults"]:
+        ctx.stat("staging: routing model predicts " + "+".join(sorted({f["kind"] for f in m["route_faults"]})))
+    else:
+        ctx.stat("staging: routing model predicts no fault")
 
 
 def check_case(ctx, c):
